@@ -172,6 +172,30 @@ func c17Observe(path string, qs []query.Q) (obs *c17Obs, err error) {
 			obs.Alive = append(obs.Alive, r.Name)
 		}
 		sort.Strings(obs.Alive)
+		// Under per-repository and per-shard match limits the search walks the
+		// documents differently; a repository that is not alive must still
+		// never show up (the alive list itself is compared with the model).
+		alive := map[string]bool{}
+		for _, n := range obs.Alive {
+			alive[n] = true
+		}
+		for _, q := range qs {
+			if q == nil {
+				continue
+			}
+			for _, o := range []zoekt.SearchOptions{{ShardRepoMaxMatchCount: 1}, {ShardRepoMaxMatchCount: 2}, {ShardMaxMatchCount: 1}, {ShardRepoMaxMatchCount: 1, ChunkMatches: true}} {
+				opts := o
+				res, err := s.Search(ctx, q, &opts)
+				if err != nil {
+					return fmt.Errorf("search %s with %+v: %w", q, o, err)
+				}
+				for i := range res.Files {
+					if !alive[res.Files[i].Repository] {
+						return kit.Fail("tombstoned-visible-under-limit", "query %s with ShardRepoMaxMatchCount=%d ShardMaxMatchCount=%d returns %s/%s although the repository is tombstoned", q, o.ShardRepoMaxMatchCount, o.ShardMaxMatchCount, res.Files[i].Repository, res.Files[i].FileName)
+					}
+				}
+			}
+		}
 		return nil
 	})
 	return obs, err
